@@ -15,9 +15,16 @@ from . import bsp
 
 
 class HModel:
-    def __init__(self, degs, ncoarse, mults=None, interval=(0.0, 1.0)):
+    def __init__(self, degs, ncoarse, mults=None, interval=(0.0, 1.0), breaks=None):
         """degs[d], ncoarse[d]: degree and number of coarse cells along parameter axis d (axis 0 first, as in
-        pyiga kvs tuples).  mults[d]: multiplicity of the coarse interior knots (default 1)."""
+        pyiga kvs tuples).  mults[d]: multiplicity of the coarse interior knots (default 1).  breaks[d]: the coarse
+        breakpoints of axis d (default: uniform on `interval`); finer levels bisect every cell."""
+        self.breaks = None
+        if breaks and any(b for b in breaks):
+            self.breaks = [list(map(float, b)) if b else None for b in breaks]
+            for b, k in zip(self.breaks, ncoarse):
+                if b is not None and len(b) != k + 1:
+                    raise ValueError("breaks do not match ncoarse")
         self.dim = len(degs)
         self.degs = tuple(degs)
         self.ncoarse = tuple(ncoarse)
@@ -37,9 +44,11 @@ class HModel:
             p, k, m = self.degs[d], self.ncoarse[d], self.mults[d]
             n = k * 2 ** l
             a, b = self.a, self.b
+            if self.breaks is not None and self.breaks[d] is not None:
+                a, b = self.breaks[d][0], self.breaks[d][-1]
             kn = [a] * (p + 1)
             for i in range(1, n):
-                x = a + (b - a) * i / n
+                x = self.point(l, d, i)
                 is_coarse = (i % (2 ** l) == 0)
                 kn += [x] * (m if is_coarse else 1)
             kn += [b] * (p + 1)
@@ -95,11 +104,21 @@ class HModel:
     def ravel_fun(self, l, f):
         return int(np.ravel_multi_index(f, self.nfun_tp(l)))
 
+    def point(self, l, d, i):
+        """the i-th breakpoint of level l along axis d"""
+        n = self.ncell(l, d)
+        if self.breaks is None or self.breaks[d] is None:
+            return self.a + (self.b - self.a) * i / n
+        br = self.breaks[d]
+        q, r = divmod(i, 2 ** l)
+        if r == 0:
+            return br[q]
+        return br[q] + (br[q + 1] - br[q]) * r / 2 ** l
+
     def cell_extent(self, l, c):
         out = []
         for d in range(self.dim):
-            n = self.ncell(l, d)
-            out.append((self.a + (self.b - self.a) * c[d] / n, self.a + (self.b - self.a) * (c[d] + 1) / n))
+            out.append((self.point(l, d, c[d]), self.point(l, d, c[d] + 1)))
         return tuple(out)
 
     @staticmethod
